@@ -1966,6 +1966,8 @@ class Executor:
                                            z3.And(s.arr[lst.arr[i]], pos(lst.arr[i]) == i))),
                  z3.ForAll([x], z3.Implies(s.arr[x], z3.And(pos(x) >= 0, pos(x) < lst.n,
                                                            lst.arr[pos(x)] == x)))]
+        from . import builtins_model as bm
+        facts.append(lst.n == bm.card_term(s).t)        # a duplicate-free enumeration has |s| elements
         if order == 'inc':
             facts.append(z3.ForAll([i, j], z3.Implies(z3.And(i >= 0, i < j, j < lst.n),
                                                       lst.arr[i] < lst.arr[j])))
